@@ -9,6 +9,10 @@ Go sources modelled (statement order mirrored):
   signature prefixes `sigs[0:i]`, `bytes.Equal(tx.Data(), contractABI.Pack(method, args…))`)
   and of `UploadSmartContract` (`tx.Data() == bytecode ++ constructor input`);
   `BuildCompassConsensus` (turnstone_abi.go).
+* util/libcons/consensus.go + x/evm/types/proofs_hash_bytes.go — `VerifyEvidence` over the
+  evidence of all validators (`winnerOf`, built on `Model/Libcons.lean`): proofs are grouped by
+  `sha256(BytesToHash())`, and `TxExecutedProof.BytesToHash` is the serialized transaction FOLLOWED
+  BY the serialized receipt, so the receipt is part of a proof's identity.
 * x/evm/keeper/attest.go      — `attestMessageWrapper` (cache context, committed iff the result is
   nil, `ErrEthTxNotVerified` or `ErrEthTxFailed`; the message is removed inside that cache
   context), `routerAttester` (receipt status gate, deferred `setTxAsAlreadyProcessed` inside the
@@ -18,13 +22,13 @@ Go sources modelled (statement order mirrored):
   attest_compass_handover.go, attest_upload_user_smart_contract.go — what happens after a
   successful verification (`applySuccess`).
 
-Abstracted: evidence collection and the 2/3 vote (`Winner` is the outcome of
-`ConsensusChecker.VerifyEvidence`), the retry logic of error proofs (only "message removed, no
+Abstracted: the retry logic of error proofs (only "message removed, no
 success effect" is kept), metrics events, the content of the handover message that a compass
 upload schedules (only the fact), ABI parsing of the stored compass ABI (assumed to be the
 compass ABI).  Core Lean only.
 -/
 import PalomaModel.Model.SignBytes
+import PalomaModel.Model.Libcons
 
 namespace Paloma.Attest
 open Paloma.Abi Paloma.SignBytes
@@ -145,6 +149,8 @@ structure TxProof where
   data : Bytes             -- `tx.Data()`
   receipt : Option Nat     -- `none`: `GetReceipt` fails (no / undecodable receipt); else `Status`
   deployLog : Bool         -- the receipt carries a decodable `ContractDeployed` log
+  variant : Nat := 0       -- everything else in the serialized receipt (gas used, other logs):
+                           -- two proofs are byte-identical iff all five fields agree
 deriving Repr, DecidableEq, Inhabited
 
 inductive Winner where
@@ -295,6 +301,51 @@ def attest (s : St) (id : Nat) (w : Winner) : St × Res :=
                 effects := ce.2 ++ s.effects
                 accepted := (id, p.hash) :: s.accepted }, .ok)
 
+/-! ## evidence of several validators
+
+Each validator's evidence is a proof; proofs are compared as byte strings (`DecidableEq` on the
+model value: transaction AND receipt).  For `Libcons.verifyEvidence` every proof is named by the
+position of its first occurrence in the evidence list ("hashes as naturals"). -/
+
+inductive ProofV where
+  | tx (p : TxProof)            -- `TxExecutedProof{SerializedTX, SerializedReceipt}`
+  | errorProof (msg : Nat)      -- `SmartContractExecutionErrorProof{ErrorMessage}`
+  | other (n : Nat)             -- any other registered `Hashable`
+deriving Repr, DecidableEq, Inhabited
+
+def ProofV.toWinner : ProofV → Winner
+  | .tx p => Winner.tx p
+  | .errorProof _ => Winner.errorProof
+  | .other _ => Winner.other
+
+/-- position of the first occurrence (`l.length` when absent) -/
+def firstIdx (l : List ProofV) (a : ProofV) : Nat :=
+  match l with
+  | [] => 0
+  | x :: xs => if x = a then 0 else firstIdx xs a + 1
+
+/-- evidence as stored on the message: (validator address, proof), in store order -/
+abbrev EvidenceV := Nat × ProofV
+
+/-- the evidence list in the vocabulary of `Model/Libcons.lean` -/
+def toLibcons (evs : List EvidenceV) : List Libcons.Evidence :=
+  evs.map fun e => (e.1, firstIdx (evs.map (·.2)) e.2)
+
+/-- `ConsensusChecker.VerifyEvidence(...).Winner`: the proof of the group that holds 2/3 of the
+    snapshot's shares (at most one group can; `Libcons.winner_unique`).  No evidence, no overall
+    quorum or no group quorum: `Winner.none`. -/
+def winnerOf (snap : Libcons.Snapshot) (evs : List EvidenceV) : Winner :=
+  match Libcons.verifyEvidence snap (toLibcons evs) with
+  | .notAchieved => .none
+  | .winnerIn ws =>
+    match ws with
+    | [] => .none
+    | h :: _ => ((evs.map (·.2)).getD h (ProofV.other 0)).toWinner
+
+/-- `attestRouter` as the end blocker runs it: vote, then route -/
+def attestEv (s : St) (id : Nat) (snap : Libcons.Snapshot) (evs : List EvidenceV) : St × Res :=
+  attest s id (winnerOf snap evs)
+
 /-! ## histories -/
 
 inductive Op where
@@ -304,6 +355,7 @@ inductive Op where
   | remove (id : Nat)          -- `Remove` outside attestation (pruning, superseded valset updates)
   | setChain (c : Chain)       -- any other keeper activity
   | attest (id : Nat) (w : Winner)
+  | attestEv (id : Nat) (snap : Libcons.Snapshot) (evs : List EvidenceV)
 deriving Repr, Inhabited
 
 def hasId (q : List QMsg) (id : Nat) : Bool := q.any fun m => m.id == id
@@ -320,6 +372,7 @@ def step (s : St) (op : Op) : St :=
   | .remove id => { s with queue := removeMsg s.queue id }
   | .setChain c => { s with chain := c }
   | .attest id w => (attest s id w).1
+  | .attestEv id snap evs => (attestEv s id snap evs).1
 
 def run (s : St) : List Op → St
   | [] => s
